@@ -18,6 +18,8 @@ DEFAULT_STYLE: Dict[str, Any] = {
     "cont": False,  # split '&&' / '||' of long conditions over two lines with a backslash continuation
     "prop_order": 0,  # permutation key for the order of the property groups of a config
     "tabs": False,  # indent with one tab per level instead of spaces
+    "mainmenu_indent": False,  # entries below `mainmenu` one level in (what kconfcheck's format rules ask for)
+    "cont_levels": 2,  # extra levels of a backslash continuation line
 }
 
 
@@ -115,7 +117,7 @@ class _R:
             if st.get("cont") and '"' not in text and "'" not in text and (" && " in text or " || " in text) and text.split(" ")[0] in ("depends", "if", "visible", "default", "range", "select", "imply"):
                 op = " && " if " && " in text else " || "
                 i = text.index(op) + len(op) - 1
-                text = text[:i] + " \\\n" + self.ind * (level + 2) + text[i + 1 :]
+                text = text[:i] + " \\\n" + self.ind * (level + st.get("cont_levels", 2)) + text[i + 1 :]
             if st.get("trailing") and self.nlines % st["trailing"] == 0 and not text.endswith("\\") and "\n" not in text:
                 text += "  # trailing comment"
         out.append(self.ind * level + text if text else "")
@@ -242,7 +244,7 @@ def render(tree, root_dir: str, st: Optional[dict] = None) -> Dict[str, str]:
     st = st or DEFAULT_STYLE
     r = _R(tree, root_dir, st)
     out: List[str] = [f"mainmenu {q(tree.get('mainmenu', 'Generated'))}"]
-    r.entries(out, tree["entries"], 0)
+    r.entries(out, tree["entries"], 1 if st.get("mainmenu_indent") else 0)
     r.files["Kconfig"] = out
     return {name: "\n".join(lines) + "\n" for name, lines in r.files.items()}
 
